@@ -26,6 +26,8 @@ Clause(e) ==
     ELSE IF Cardinality(oe) # Cardinality(ee) \/ Len(e.obs.enums) # Len(e.prog.enums) THEN <<"not_exactly_one_class_per_enum", "">>
     ELSE IF FieldDiff(em, om) # {} THEN <<"fields_differ_from_schema", FieldDiff(em, om)>>
     ELSE IF ee # oe THEN <<"enum_numbers_differ_from_schema", "">>
+    ELSE IF ExpectedRoutes(e.prog, e.stdmod) # ObservedRoutes(e.obs)
+         THEN <<"service_handlers_differ_from_schema", <<ExpectedRoutes(e.prog, e.stdmod) \ ObservedRoutes(e.obs), ObservedRoutes(e.obs) \ ExpectedRoutes(e.prog, e.stdmod)>> >>
     ELSE <<"ok", "">>
 
 HasCapital(pkg) == pkg \in SeqSet(Shard.hdr.capitalized_packages)
@@ -39,6 +41,8 @@ KFP(e, clause) ==
      /\ DiffExplained(e, LAMBDA mod, cls, x : MapOfWrapper(e.prog, mod, cls, x.num)) THEN "KF_C03_WrapperAsMapValue"
   ELSE IF clause = "fields_differ_from_schema" /\ ~ClassNameClash(e.prog)
      /\ DiffExplained(e, LAMBDA mod, cls, x : WrapperShadowed(e.prog, mod, cls, x)) THEN "KF_C03_WrapperShadowedByFieldName"
+  ELSE IF clause \in {"class_cannot_be_introspected", "generated_package_does_not_import", "fields_differ_from_schema"}
+          /\ AliasCollisionInput(e.prog) THEN "KF_C13_AliasCollision"
   ELSE IF clause = "class_cannot_be_introspected" /\ (\E m \in SeqSet(e.prog.msgs) : HasCapital(m.pkg)) THEN "KF_C13_CapitalizedPackage"
   ELSE IF clause \in {"not_exactly_one_class_per_message", "not_exactly_one_class_per_enum", "fields_differ_from_schema",
                  "enum_without_class", "message_without_class", "class_cannot_be_introspected", "generated_package_does_not_import"}
